@@ -123,8 +123,11 @@ class Dict(_RefT):
     def __init__(self, k, v, counter=False, default=False):
         # default=True: collections.defaultdict whose factory builds an empty container of type v
         self.k, self.v, self.counter, self.default = k, v, counter, default
-    def key(self): return (self.k, self.v)
-    def name(self): return f"Dict_{self.k.name()}_{self.v.name()}"
+    def key(self): return (self.k, self.v, self.counter, self.default)
+    def name(self):
+        if self.counter:
+            return f"Counter_{self.k.name()}"
+        return ("DefaultDict" if self.default else "Dict") + f"_{self.k.name()}_{self.v.name()}"
 
 
 def Counter(k):
